@@ -299,10 +299,10 @@ class FracLaplSettings(BaseSettings):
             ndd (int): Numer of dot product features :math:`F_s^{dd}`. Must be <= nd1
         """
         self.slist = slist
-        assert nk0 <= self.npow
-        assert nk1 <= self.npow
-        assert nd1 <= self.npow
-        assert ndd <= nd1
+        assert 0 <= nk0 <= self.npow
+        assert 0 <= nk1 <= self.npow
+        assert 0 <= nd1 <= self.npow
+        assert 0 <= ndd <= nd1
         self.l1_dots = l1_dots
         self._ndd = ndd
         self._nd1 = nd1
@@ -588,7 +588,7 @@ class SDMXGSettings(SDMXSettings):
                 for the first ndt values of n in pows.
         """
         super(SDMXGSettings, self).__init__(pows)
-        assert ndt <= len(pows)
+        assert 0 <= ndt <= len(pows)
         self._ndt = ndt
 
     @property
@@ -647,7 +647,7 @@ class SDMX1Settings(SDMXSettings):
         super(SDMX1Settings, self).__init__(pows)
         self.pows = pows
         self._n1 = n1
-        assert self._n1 <= len(self.pows)
+        assert 0 <= self._n1 <= len(self.pows)
 
     @property
     def nfeat(self):
@@ -692,7 +692,7 @@ class SDMXG1Settings(SDMXGSettings):
                 for the first n1 values of n in pows.
         """
         super(SDMXG1Settings, self).__init__(pows, nd)
-        assert n1 <= len(pows)
+        assert 0 <= n1 <= len(pows)
         self._n1 = n1
 
     @property
@@ -746,7 +746,8 @@ class SDMXFullSettings(SDMXBaseSettings):
             assert len(v[1]) == 4
             npow = len(v[0])
             for num in v[1]:
-                assert num <= npow
+                assert isinstance(num, (int, np.integer))
+                assert 0 <= num <= npow
 
     def _get_num_feat(self, i):
         n = 0
@@ -1092,6 +1093,8 @@ class NLDFSettings(BaseSettings):
             n = 3 if self.sl_level == "MGGA" else 2
             if spec == "se_erf_rinv":
                 assert len(params) == n + 1
+                # ratio of the erf/rinv exponent to the feature exponent
+                assert params[n] > 0
             else:
                 assert len(params) == n
         except AssertionError:
